@@ -28,3 +28,6 @@ open SamVerif.Heap SamVerif.PStr
 #print axioms cmpHandle_trans
 #print axioms cmpHandle_trichotomy
 #print axioms debugUnmarked_sorted
+#print axioms live_without_covering_sweep
+#print axioms marked_needs_two_covering_sweeps
+#print axioms coverCount_le_sweepCount
